@@ -190,10 +190,16 @@ func checkC18(e *core.Env) {
 					viol("clone-dynamic/panic", pan)
 				} else if err != nil {
 					viol("clone-dynamic/error", err.Error())
-				} else if d2, ok := dcp.(*dynamic.Message); !ok || !dynamic.Equal(d2, dm) {
-					viol("clone-dynamic/not-equal", fmt.Sprintf("clone of a dynamic message is %T / differs", dcp))
-				} else if sh := sharedMemory(d2, dm); sh != "" {
-					viol("clone-dynamic/shared", "dynamic clone shares memory with source: "+sh)
+				} else {
+					d2, ok := dcp.(*dynamic.Message)
+					equal := false
+					if p2 := guard(func() { equal = ok && dynamic.Equal(d2, dm) }); p2 != "" {
+						viol("clone-dynamic/unusable", "clone of a dynamic message cannot even be compared (no descriptor?): "+trunc(p2, 200))
+					} else if !equal {
+						viol("clone-dynamic/not-equal", fmt.Sprintf("clone of a dynamic message is %T / differs", dcp))
+					} else if sh := sharedMemory(d2, dm); sh != "" {
+						viol("clone-dynamic/shared", "dynamic clone shares memory with source: "+sh)
+					}
 				}
 				e.Eval(sig("clone-dynamic"), true)
 				if cfg.crossRep {
